@@ -16,7 +16,7 @@ WSEv ==
          wr == [op |-> e.op, pay |-> e.pay, sel |-> ToSet(e.sel), star |-> e.star, omit |-> ToSet(e.omit)]
          keys == {e.model[i].name : i \in {j \in DOMAIN e.model : e.model[j].key}}
          exp == Written(e.model, wr) \ keys        \* the key keeps its value (updates) or is generated (create)
-         isCreate == e.op \in {"create", "create_map", "create_slice"}
+         isCreate == e.op \in {"create", "create_map", "create_maps", "create_slice"}
          got == (IF isCreate THEN ToSet(e.obs.newrow) ELSE ToSet(e.obs.changed)) \ keys
          \* an update whose write set is empty builds no statement: nothing changes
          cols == got = (IF isCreate THEN exp ELSE exp)
